@@ -473,6 +473,20 @@ def check_value(env, s, rep):
             if not same_t:      # (object addresses in the text of a non-data object are not part of the observation)
                 obs += ' rewrite=%s' % (_ADDR.sub('', repr(w2[1])) if w2[0] == 'ok' else 'exc:' + w2[1])
             fails.append((path, obs, exp_s))
+    if has_dict(s):
+        # a second reading of the same text after the program has updated, in place, every dictionary of the first reading
+        # (dictionaries are the only values a program can change: `d,[k v]`); what a text reads as depends on the text alone
+        for path, reader in (('rs-again', env.read_rs), ('r-again', env.read_r)):
+            runs += 1
+            r1 = _try(reader, text)
+            if r1[0] != 'ok':
+                continue            # reported above
+            _update_dicts(env, r1[1])
+            r = _try(reader, text)
+            c2 = _try(cn, r[1]) if r[0] == 'ok' else r
+            if c2 != ('ok', exp):
+                fails.append((path, 'text=%r second read=%s' % (text, 'ok:' + _show_c(c2[1]) if c2[0] == 'ok' else 'exc:' + str(c2[1])),
+                              exp_s))
     if s[0] in 'ircsy':
         runs += 1
         r = _try(env.form, build(s, rep))
@@ -488,6 +502,18 @@ def check_value(env, s, rep):
             fails.append(('fmt-rs', 'fmt-rs=%s' % ('ok:' + _show_c(c2[1]) if c2[0] == 'ok' else 'exc:' + c2[1]),
                           'fmt-rs=ok:' + _show_c(exp)))
     return text, runs, fails
+
+
+def _update_dicts(env, v, depth=0):
+    """`d,[:zz 1]` (Klong's in-place dictionary update, run by the interpreter) on every dictionary inside v."""
+    if isinstance(v, dict):
+        for w in list(v.values()):
+            _update_dicts(env, w, depth + 1)
+        env.k['dd'] = v
+        env.k('dd,[:zz 1]')
+    elif isinstance(v, (list, np.ndarray)) and getattr(v, 'dtype', object) == object and depth < 8:
+        for w in v:
+            _update_dicts(env, w, depth + 1)
 
 
 def classify(s, path, observed):
@@ -534,6 +560,10 @@ SNIP_PATH = {
          "k['ic'] = KGChannel(io.StringIO(text), KGChannelDir.INPUT); k('.fc(ic)')\n"
          "r = k('.r()'); print(repr(r))                                    # expected: the same value as v\n"
          "out.seek(0); out.truncate(); k['v'] = r; k('.w(v)'); print(repr(out.getvalue()))   # expected: == text",
+    'rs-again': "k('.w(v)'); text = out.getvalue(); k['t'] = text; r1 = k('.rs(t)')\n"
+                "# update every dictionary inside r1 in place (k['dd'] = <dictionary>; k('dd,[:zz 1]')), then read the text again:\n"
+                "print(repr(k('.rs(t)')))                                       # expected: the same value as v",
+    'r-again': "# as rs-again, reading with .r() from a channel holding the text both times",
     'form': "print(repr(k('$v')), repr(k('v:$$v')))      # expected: v again",
     'fmt-rs': "print(repr(k('$v')), repr(k('.rs($v)')))      # expected: v again",
 }
